@@ -6,7 +6,14 @@ package rng
 type R struct{ s uint64 }
 
 // New returns a generator seeded with seed.
-func New(seed uint64) *R { return &R{s: seed*0x9E3779B97F4A7C15 + 0x1234567} }
+func New(seed uint64) *R {
+	// the seed is hashed first: the state advances by a constant per draw, so
+	// without this New(k+1) would be New(k) shifted by one draw
+	z := seed + 0x1234567
+	z = (z ^ (z >> 30)) * 0xBF58476D1CE4E5B9
+	z = (z ^ (z >> 27)) * 0x94D049BB133111EB
+	return &R{s: z ^ (z >> 31)}
+}
 
 // U64 returns the next 64 random bits.
 func (r *R) U64() uint64 {
